@@ -16,7 +16,7 @@ RULE = ("lines built from text runs (ASCII incl. the sequence's own characters '
 ASSUMPTIONS = [
     "vte 0.11 tokenisation is modelled for Ground/Escape/CSI states only (OSC, DCS, SOS/PM/APC strings are flagged unsupported and never generated)",
     "texts shorter than 2^32 characters (`as u32` on character counts is not modelled)",
-    "preview text is tied through the shared mechanism (one ANSIParser over consecutive lines, mode multi), not through a spawned preview process",
+    "preview text: the shared mechanism (one ANSIParser over consecutive lines, mode multi) and the real Previewer shown ANSI texts one after the other (mode pv: ItemPreview::AnsiText through the preview thread; every text starts from default attributes); no spawned preview process",
 ]
 TRUSTED = [
     "tools/extractors/sgr.py (regex over the match arms of csi_dispatch; fails closed) -> Generated/Sgr.lean",
@@ -150,7 +150,29 @@ CHAOS = [27, 27, 27, 91, 91, 91, 109, 109, 59, 59, 58, 48, 49, 50, 51, 52, 53, 5
          0, 7, 24, 26, 127, 0xE9, 0x4E2D, 64, 75, 99, 40, 66, 97, 126, 96, 31, 28]
 
 
+def pv_case(rng):
+    """2-3 preview texts of exactly two non-empty lines each (no CR: the previewer splits with str::lines); a text often ends with an
+    attribute still selected — the next text must start from default attributes all the same"""
+    lines = []
+    for _ in range(2 * rng.randint(2, 3)):
+        segs = []
+        for _ in range(rng.randint(0, 3)):
+            segs.append(rsgr(rng) if rng.random() < 0.6 else "t=%d" % rng.choice([97, 98, 120, 233, 20013]))
+        segs.append("t=%d" % rng.choice([97, 98, 120, 20013]))
+        if rng.random() < 0.3:
+            segs.append(rsgr(rng))
+        lines.append(segs)
+    out = []
+    for i, l in enumerate(lines):
+        if i:
+            out.append("n")
+        out.extend(l)
+    return "pv", out
+
+
 def one_case(rng):
+    if rng.random() < 0.04:
+        return pv_case(rng)
     mode = rng.choice(MODES)
     if rng.random() < 0.05:
         # state-machine chaos: any mix of ESC, '[', parameter / intermediate / final bytes, C0 controls, DEL, non-ASCII
